@@ -404,7 +404,7 @@ def api_name(p):
     return 'stat'
 
 
-async def run_schedule(mode, prog, replies, pick, ridbase=10, max_steps=4000, lid0=None, write_yield=False, line_yield=False, reps=None, write_fault=None):
+async def run_schedule(mode, prog, replies, pick, ridbase=10, max_steps=4000, lid0=None, write_yield=False, line_yield=False, reps=None, write_fault=None, wcap=None):
     """One execution of the real code under a schedule chosen by pick(enabled) -> (trace, info)."""
     w = World(mode, prog, replies, ridbase, lid0=lid0)
     w.gate.write_yield = write_yield
@@ -455,6 +455,8 @@ async def run_schedule(mode, prog, replies, pick, ridbase=10, max_steps=4000, li
                 return v
             return arun
         w.op = seq
+    if wcap:
+        w.core.wcap = wcap          # the transport accepts only part of what it is offered
     if write_fault:
         w.gate.write_fault = write_fault
         w.gate.write_exc = w.core.exc_timeout
@@ -522,7 +524,7 @@ async def run_schedule(mode, prog, replies, pick, ridbase=10, max_steps=4000, li
     return tr, dict(stuck=stuck, schedule=sched_log, results={t: w.results.get(t) for t in w.threads}, lids=dict(lid_of), pushed=pushed)
 
 
-def explore(mode, prog, replies, n, rng, ridbase=10, lid0=None, write_yield=False, line_yield=False, reps=None, write_fault=None):
+def explore(mode, prog, replies, n, rng, ridbase=10, lid0=None, write_yield=False, line_yield=False, reps=None, write_fault=None, wcap=None):
     """n random schedules (uniform and sticky mixes)."""
     async def main():
         out = []
@@ -551,7 +553,7 @@ def explore(mode, prog, replies, n, rng, ridbase=10, lid0=None, write_yield=Fals
                 last[0] = c
                 return c
             out.append(await run_schedule(mode, prog, replies, pick, ridbase, lid0=lid0, write_yield=write_yield, line_yield=line_yield, reps=reps,
-                                          write_fault=write_fault(rng) if callable(write_fault) else write_fault))
+                                          write_fault=write_fault(rng) if callable(write_fault) else write_fault, wcap=wcap(rng) if wcap else None))
         return out
     loop = asyncio.new_event_loop()
     try:
